@@ -170,10 +170,17 @@ class Ctx:
     self.quick = tier == 'quick'
 
   # ---- execution -------------------------------------------------------
-  def run(self, sub, cases):
-    """In-process execution of an iterable of cases."""
+  def run(self, sub, cases, reverse_pass=False):
+    """In-process execution of an iterable of cases.
+
+    reverse_pass: execute the cases a second time in REVERSE order in the same process. Every case is judged by its
+    own oracle, so the second pass is a history-independence check: state left behind by one case (module-level
+    caches, reused buffers) meets the cases in the opposite order as well."""
     if getattr(self, 'only', None) and sub not in self.only:
       return
+    if reverse_pass:
+      cases = list(cases)
+      cases = cases + cases[::-1]
     for case in cases:
       if self._timeouts.get(sub, 0) >= 2:
         self.caps.append({'sub': sub, 'cap': 'sub-space abandoned after 2 non-terminating executions'})
